@@ -459,9 +459,10 @@ def rule_domain(ctx):
                 continue
             # gate: the next test on `var` must raise ValueError on its true edge
             gated = False
-            for m in g.nodes:
+            after_ = g.reach(g.normal_succ(node))
+            for m in sorted(g.nodes, key=lambda x: x.id):
                 if m.kind == "test" and isinstance(m.expr, ast.Name) and m.expr.id == var and \
-                        m.line > node.line:
+                        m.id in after_:
                     tb = g.succ_on(m, "T")
                     seen = g.reach(tb)
                     raises = [x for x in g.nodes if x.id in seen and x.kind == "raise"]
